@@ -144,7 +144,7 @@ func glob(path string, rx *regexp.Regexp, fn func(string)) error {
 	defer d.Close()
 
 	var dot bool
-	if strings.HasPrefix(rx.String(), `^(\.`) {
+	if strings.HasPrefix(rx.String(), `(?s)^(\.`) {
 		dot = true
 		for _, n := range []string{".", ".."} {
 			if rx.MatchString(n) {
@@ -192,6 +192,8 @@ func unquote(s string) (string, bool) {
 
 func compile(patterns []string, mode Mode) (*regexp.Regexp, error) {
 	var b strings.Builder
+	// '?' and '*' also match <newline>
+	b.WriteString("(?s)")
 	if mode&Prefix != 0 {
 		b.WriteByte('^')
 	}
